@@ -121,6 +121,7 @@ def class_source(name, feats, prev):
         L.append("\tfn clearo(self) {\n\t\tself.o = nil\n\t}")
     if "xs" in feats:
         L.append("\tfn sharexs(self, x: Self) {\n\t\tself.xs = x.xs\n\t}")
+        L.append("\tfn copyxs(self, x: Self) {\n\t\tself.xs = x.xs.clone()\n\t}")
     if "cur" in feats:
         L.append("\tfn swapcur(self, x: Self) -> int {\n\t\tself.cur = x\n\t\treturn 1\n\t}")
         L.append("\tfn curn(self) -> int {\n\t\treturn self.cur.n\n\t}")
@@ -424,6 +425,36 @@ class Interp:
                     if "xs" in self.feats[o.cls]:
                         o.xs.append(d)
                     em.out(str(o.n))
+            elif m == "copyxs":
+                # an independent copy of the other object's list, also when that list is empty
+                if "xs" not in f or b is None or b.cls != a.cls:
+                    return False
+                if op["v"] % 2 == 0 and b is not a:
+                    # ... in particular a copy of an EMPTY list, which is then extended through the copy
+                    em.code("%s.resize()\n%s.copyxs(%s)\n%s.xs.push(77)" % (op["b"], an, op["b"], an))
+                    b.xs.clear()
+                    a.xs = [77]
+                else:
+                    em.code("%s.copyxs(%s)" % (an, op["b"]))
+                    a.xs = list(b.xs)
+            elif m == "negread":
+                # unary operators applied directly to a field read: a read, nothing is stored
+                em.code("print -%s.n" % an)
+                em.out(str(-a.n))
+                if "flag" in f:
+                    em.code("print !%s.flag" % an)
+                    em.out("false" if a.flag else "true")
+                if "fl" in f:
+                    em.code("print -%s.fl" % an)
+                    em.out(fmt_float(-a.fl))
+            elif m == "peeris":
+                # identity between an optional field (possibly nil) and an object, in both operand orders
+                if "peer" not in f or b is None or b.cls != a.cls:
+                    return False
+                em.code("print %s.peer is %s\nprint %s is %s.peer" % (an, op["b"], op["b"], an))
+                r = "true" if a.peer is b else "false"
+                em.out(r)
+                em.out(r)
             elif m == "popfront":
                 if "xs" not in f or len(a.xs) < 2:
                     return False
@@ -692,7 +723,7 @@ class Interp:
 
 METHODS = ["getn", "setn", "resetn", "add", "twice", "me", "fresh", "chain", "swapn", "sets", "cat", "size", "resize", "seto",
            "clearo", "link", "peern", "bumppeer", "getpeer", "attach", "othern", "copyfrom", "copyfrom", "getme", "toggle", "toggle", "negn", "grow", "both", "drain", "chainfresh", "chainpeer", "sharexs", "sharexs",
-           "resize", "flip", "flip", "addf", "sumread", "sumread", "curadd", "curadd", "curn", "setcur", "getcur", "add2", "add2", "mkclo", "mkclo", "callclo", "callclo", "callclo", "peekpeer", "peekpeer", "peekpeer", "popfront", "popfront", "popfront"]
+           "resize", "flip", "flip", "addf", "sumread", "sumread", "curadd", "curadd", "curn", "setcur", "getcur", "add2", "add2", "mkclo", "mkclo", "callclo", "callclo", "callclo", "peekpeer", "peekpeer", "peekpeer", "popfront", "popfront", "popfront", "copyxs", "copyxs", "negread", "negread", "peeris", "peeris", "peeris"]
 
 
 def gen_op(rng, it):
@@ -714,7 +745,7 @@ def gen_op(rng, it):
         op["m"] = rng.choice(focus) if focus and rng.chance(3, 5) else rng.choice(METHODS)
         op["t"] = rng.choice(STRS)
         op["b"] = rng.choice(names)
-        if op["m"] in ("swapn", "link", "copyfrom", "sharexs", "curadd", "setcur", "peekpeer"):
+        if op["m"] in ("swapn", "link", "copyfrom", "sharexs", "curadd", "setcur", "peekpeer", "copyxs", "peeris"):
             op["b"] = rng.choice(same)
     elif kind in ("rebind", "rebindpeer"):
         op["b"] = rng.choice(same)
